@@ -12,6 +12,26 @@ def IsHeadOp : Op → Bool
   | .findHead _ _ => true
   | _ => false
 
+/-- the operations whose answers are proved equal to the specification's on admissible histories: insertions,
+votes, checkpoint updates, pin, heads, `GetSlot`, `InSubtree` and the checkpoint/pin getters -/
+def Refined : Op → Bool
+  | .slot .. => true
+  | .block .. => true
+  | .att .. => true
+  | .justify .. => true
+  | .pin .. => true
+  | .head => true
+  | .findHead .. => true
+  | .getSlot _ => true
+  | .inSub .. => true
+  | .just => true
+  | .fin => true
+  | .pinq => true
+  | _ => false
+
+theorem refined_of_head {op : Op} (h : IsHeadOp op = true) : Refined op = true := by
+  cases op <;> simp_all [IsHeadOp, Refined]
+
 theorem ref_held {fc : FC} {a : Abs} (r : Ref fc a) (b : Bool) : Ref { fc with held := b } a :=
   { spe := r.spe, nodes := r.nodes, votes := r.votes, balances := r.balances, justified := r.justified,
     finalized := r.finalized, pin := r.pin, sink := r.sink, clean := r.clean, jE := r.jE, fE := r.fE,
@@ -157,7 +177,29 @@ and on `head` / `findhead` the two answers are equal -/
 def SimOK (op : Op) (m : MState × Ans) (s : Abs × Ans) : Prop :=
   (match m.1 with
    | .live fc' => Ref fc' s.1
-   | _ => False) ∧ (IsHeadOp op = true → m.2 = s.2)
+   | _ => False) ∧ (Refined op = true → m.2 = s.2)
+
+theorem sinkReport_nil : sinkReport [] = ([], none) := rfl
+
+/-- `InSubtree` of the specification, read off the model's maps -/
+theorem spec_inSub_eq (fc : FC) (a : Abs) (I : FI fc) (r : Ref fc a) (x rt : Root) :
+    a.inSub x rt = .inSub (RefOps.insAns fc.pa x rt).1 (RefOps.insAns fc.pa x rt).2 := by
+  unfold Abs.inSub RefOps.insAns
+  rw [known_iff I.wf I.chain r, known_iff I.wf I.chain r, inside_eq I.wf I.chain r]
+  cases hx : aGet fc.pa.blockSlots x with
+  | none => simp
+  | some sx =>
+    cases hr : aGet fc.pa.blockSlots rt with
+    | none => simp
+    | some sr =>
+      have h1 := I.wf.bs_node x sx hx
+      have h2 := I.wf.bs_node rt sr hr
+      cases h3 : aGet fc.pa.indices ⟨sx, x⟩ with
+      | none => rw [h3] at h1; cases h1
+      | some ix =>
+        cases h4 : aGet fc.pa.indices ⟨sr, rt⟩ with
+        | none => rw [h4] at h2; cases h2
+        | some ir => simp [h3, h4]
 
 theorem stepLive_sim (fc : FC) (a : Abs) (hh : fc.held = false) (I : FI fc) (hl : LI fc.pa) (r : Ref fc a) (op : Op)
     (hok : StepOK (.live fc) op) (hni : ∀ spe ar as ap j f sink bals, op ≠ .init spe ar as ap j f sink bals) :
@@ -173,28 +215,28 @@ theorem stepLive_sim (fc : FC) (a : Abs) (hh : fc.held = false) (I : FI fc) (hl 
   cases op with
   | init spe ar as ap j f sink bals => exact absurd rfl (hni spe ar as ap j f sink bals)
   | slot p s j f =>
-    refine ⟨?_, fun h => by cases h⟩
-    show (match (finish (fc.processSlot p s j f) _).1 with | .live fc' => Ref fc' _ | _ => False)
+    show (match (finish (fc.processSlot p s j f) _).1 with | .live fc' => Ref fc' _ | _ => False) ∧
+      (_ → (finish (fc.processSlot p s j f) (fun _ => Ans.unit)).2 = Ans.unit)
     unfold FC.processSlot
     rw [withLock_free fc hh]
     simp only [finish, relock_pa fc hh]
-    exact ref_processSlot fc a I r p s j f hok.2
+    exact ⟨ref_processSlot fc a I r p s j f hok.2, fun _ => trivial⟩
   | block p rt s j f =>
-    refine ⟨?_, fun h => by cases h⟩
-    show (match (finish (fc.processBlock p rt s j f) _).1 with | .live fc' => Ref fc' _ | _ => False)
     obtain ⟨pr', b, e, _, _⟩ := processBlock_spec fc.pa I.wf p rt s j f
+    have hb := ref_processBlock fc a I r p rt s j f pr' b e
+    show (match (finish (fc.processBlock p rt s j f) _).1 with | .live fc' => Ref fc' _ | _ => False) ∧
+      (_ → (finish (fc.processBlock p rt s j f) Ans.bool).2 = Ans.bool (a.processBlock p rt s j f).2)
     unfold FC.processBlock
     rw [withLock_free fc hh]
     simp only [e, finish, relock_pa fc hh]
-    exact (ref_processBlock fc a I r p rt s j f pr' b e).1
+    exact ⟨hb.1, fun _ => by rw [hb.2]⟩
   | att v rt s =>
-    refine ⟨?_, fun h => by cases h⟩
-    obtain ⟨fc', b, e, _, _, r', _⟩ := ref_processAttestation fc a hh I r v rt s hok
-    show (match (finish (fc.processAttestation v rt s) _).1 with | .live fc' => Ref fc' _ | _ => False)
+    obtain ⟨fc', b, e, _, _, r', hb⟩ := ref_processAttestation fc a hh I r v rt s hok
+    show (match (finish (fc.processAttestation v rt s) _).1 with | .live fc' => Ref fc' _ | _ => False) ∧
+      (_ → (finish (fc.processAttestation v rt s) Ans.bool).2 = Ans.bool (a.processAttestation v rt s).2)
     rw [e]
-    exact r'
+    exact ⟨r', fun _ => by simp [finish, hb]⟩
   | justify t j f b =>
-    refine ⟨?_, fun h => by cases h⟩
     have I0 : FI { fc with pa := { fc.pa with sinkLog := [] } } :=
       ⟨wf_sinkLog I.wf [], chain_congr (pr := fc.pa) (pr' := { fc.pa with sinkLog := [] }) rfl rfl rfl (fun _ => rfl) I.chain,
         I.nz, I.vin, fun i n hn => by
@@ -206,21 +248,22 @@ theorem stepLive_sim (fc : FC) (a : Abs) (hh : fc.held = false) (I : FI fc) (hl 
         finalized := r.finalized, pin := r.pin, sink := r.sink, clean := r.clean, jE := r.jE, fE := r.fE,
         fresh := r.fresh, next_in := r.next_in, cur_le := r.cur_le, settled := r.settled }
     have hs := ref_updateJustified { fc with pa := { fc.pa with sinkLog := [] } } a hh I0 r0 t j f b hok rfl
-    show (match (stepLive fc (.justify t j f b)).1 with | .live fc' => Ref fc' (a.updateJustified t j f b).1 | _ => False)
+    show (match (stepLive fc (.justify t j f b)).1 with | .live fc' => Ref fc' (a.updateJustified t j f b).1 | _ => False) ∧
+      (_ → (stepLive fc (.justify t j f b)).2 = (a.updateJustified t j f b).2)
     unfold stepLive
     simp only
     revert hs
     cases FC.updateJustified { fc with pa := { fc.pa with sinkLog := [] } } t j f b with
-    | ok s u => exact fun hs => hs.2.2.2.1
-    | err s => exact fun hs => hs.2.2.2.1
-    | panic => exact fun hs => hs
-    | blocked => exact fun hs => hs
+    | ok s u => exact fun hs => ⟨hs.2.2.2.1, fun _ => by simp [hs.2.1, sinkReport_nil, hs.2.2.2.2]⟩
+    | err s => exact fun hs => ⟨hs.2.2.2.1, fun _ => by simp [hs.2.1, sinkReport_nil, hs.2.2.2.2]⟩
+    | panic => exact fun hs => hs.elim
+    | blocked => exact fun hs => hs.elim
   | pin rt s =>
-    refine ⟨?_, fun h => by cases h⟩
-    show (match (finish (fc.setPin rt s) _).1 with | .live fc' => Ref fc' (a.stepLive (.pin rt s)).1 | _ => False)
+    show (match (finish (fc.setPin rt s) _).1 with | .live fc' => Ref fc' (a.stepLive (.pin rt s)).1 | _ => False) ∧
+      (_ → (finish (fc.setPin rt s) (fun _ => Ans.unit)).2 = (a.stepLive (.pin rt s)).2)
     rcases ref_setPin fc a hh I r rt s with ⟨h1, e, r'⟩ | ⟨h1, e⟩
-    · rw [e]; simp only [finish, Abs.stepLive, h1, if_true]; exact r'
-    · rw [e]; simp only [finish, Abs.stepLive, h1]; exact r
+    · rw [e]; simp only [finish, Abs.stepLive, h1, if_true]; exact ⟨r', fun _ => trivial⟩
+    · rw [e]; simp only [finish, Abs.stepLive, h1]; exact ⟨r, fun _ => rfl⟩
   | head =>
     have hs := wrapperHead_sim fc a hh I hl r
     show (match (finish fc.head _).1 with | .live fc' => Ref fc' a | _ => False) ∧
@@ -253,31 +296,31 @@ theorem stepLive_sim (fc : FC) (a : Abs) (hh : fc.held = false) (I : FI fc) (hl 
     | none => simp only [finish]; rw [relock fc hh]; exact r
     | some x => simp only [finish]; rw [relock fc hh]; exact r
   | getSlot rt =>
-    refine ⟨?_, fun h => by cases h⟩
-    show (match (finish (fc.getSlot rt) _).1 with | .live fc' => Ref fc' a | _ => False)
+    show (match (finish (fc.getSlot rt) _).1 with | .live fc' => Ref fc' a | _ => False) ∧
+      (_ → (finish (fc.getSlot rt) Ans.slotOpt).2 = Ans.slotOpt (a.firstSlot rt))
     unfold FC.getSlot
     rw [withLock_free fc hh]
     simp only [finish, relock fc hh]
-    exact r
+    exact ⟨r, fun _ => by rw [firstSlot_eq I.wf I.chain r]; rfl⟩
   | inSub x rt =>
-    refine ⟨?_, fun h => by cases h⟩
-    show (match (finish (fc.inSubtree x rt) _).1 with | .live fc' => Ref fc' a | _ => False)
+    show (match (finish (fc.inSubtree x rt) _).1 with | .live fc' => Ref fc' a | _ => False) ∧
+      (_ → (finish (fc.inSubtree x rt) (fun p => Ans.inSub p.1 p.2)).2 = a.inSub x rt)
     unfold FC.inSubtree
     rw [withLock_free fc hh]
     simp only [liftPA]
-    obtain ⟨pr', res, e, hw, hf⟩ := inSubtree_wf fc.pa I.wf x rt
+    obtain ⟨pr', e, hw, hf⟩ := RefOps.inSubtree_answer fc.pa I.wf I.chain x rt
     rw [e]
     simp only [finish, relock_pa fc hh]
-    exact ref_frame fc a r pr' hf
-  | just => exact ⟨r, fun h => by cases h⟩
-  | fin => exact ⟨r, fun h => by cases h⟩
-  | pinq => exact ⟨r, fun h => by cases h⟩
+    exact ⟨ref_frame fc a r pr' hf, fun _ => (spec_inSub_eq fc a I r x rt).symm⟩
+  | just => exact ⟨r, fun _ => by simp [stepLive, Abs.stepLive, r.justified]⟩
+  | fin => exact ⟨r, fun _ => by simp [stepLive, Abs.stepLive, r.finalized]⟩
+  | pinq => exact ⟨r, fun _ => by simp [stepLive, Abs.stepLive, r.pin]⟩
   | nodes => exact ⟨r, fun h => by cases h⟩
 
 /-! ## the two machines in lock-step -/
 
 theorem step_sim (st : MState) (sa : Option Abs) (h3 : MInv3 st) (hR : MRef st sa) (op : Op) (hok : StepOK st op) :
-    MRef (step st op).1 (Spec.step sa op).1 ∧ (IsHeadOp op = true → (step st op).2 = (Spec.step sa op).2) := by
+    MRef (step st op).1 (Spec.step sa op).1 ∧ (Refined op = true → (step st op).2 = (Spec.step sa op).2) := by
   cases op with
   | init spe ar as ap j f sink bals =>
     have := mref_init st sa spe ar as ap j f sink bals
@@ -310,6 +353,12 @@ theorem step_sim (st : MState) (sa : Option Abs) (h3 : MInv3 st) (hR : MRef st s
           simp only [hc, Bool.false_eq_true, if_false]
           exact ⟨h1, h2⟩
 
+/-- the answers to the refined operations agree position by position -/
+def AnswersAgree : List Op → List Ans → List Ans → Prop
+  | op :: ops, x :: xs, y :: ys => (Refined op = true → x = y) ∧ AnswersAgree ops xs ys
+  | [], [], [] => True
+  | _, _, _ => False
+
 /-- the answers to `head` / `findhead` agree position by position -/
 def HeadsAgree : List Op → List Ans → List Ans → Prop
   | op :: ops, x :: xs, y :: ys => (IsHeadOp op = true → x = y) ∧ HeadsAgree ops xs ys
@@ -321,8 +370,8 @@ empty-slot insertions, no vote for Go's zero NodeRef, finalized checkpoint never
 `FindHead(anchor, slot)` answer of the code-shaped model — value or error — is the answer of the specification:
 the GHOST walk from the pinned / justified start node over the children that lead to a viable head, choosing the
 greatest (subtree weight of latest accepted votes, root). -/
-theorem head_eq_ghost_run : ∀ (ops : List Op) (st : MState) (sa : Option Abs), MInv3 st → MRef st sa → Admissible st ops →
-    HeadsAgree ops (run st ops).2 (Spec.run sa ops).2 ∧ MRef (run st ops).1 (Spec.run sa ops).1 := by
+theorem refines_run : ∀ (ops : List Op) (st : MState) (sa : Option Abs), MInv3 st → MRef st sa → Admissible st ops →
+    AnswersAgree ops (run st ops).2 (Spec.run sa ops).2 ∧ MRef (run st ops).1 (Spec.run sa ops).1 := by
   intro ops
   induction ops with
   | nil => intro st sa _ hR _; exact ⟨trivial, hR⟩
@@ -333,6 +382,24 @@ theorem head_eq_ghost_run : ∀ (ops : List Op) (st : MState) (sa : Option Abs),
     obtain ⟨hrest, hfin⟩ := ih (step st op).1 (Spec.step sa op).1 h3' hr1 ha.2
     simp only [run, Spec.run]
     exact ⟨⟨hans, hrest⟩, hfin⟩
+
+theorem headsAgree_of_answers : ∀ (ops : List Op) (xs ys : List Ans), AnswersAgree ops xs ys → HeadsAgree ops xs ys := by
+  intro ops
+  induction ops with
+  | nil => intro xs ys h; cases xs <;> cases ys <;> simp_all [AnswersAgree, HeadsAgree]
+  | cons op rest ih =>
+    intro xs ys h
+    cases xs with
+    | nil => simp [AnswersAgree] at h
+    | cons x xs =>
+      cases ys with
+      | nil => simp [AnswersAgree] at h
+      | cons y ys => exact ⟨fun hh => h.1 (refined_of_head hh), ih xs ys h.2⟩
+
+theorem head_eq_ghost_run (ops : List Op) (st : MState) (sa : Option Abs) (h3 : MInv3 st) (hR : MRef st sa)
+    (ha : Admissible st ops) :
+    HeadsAgree ops (run st ops).2 (Spec.run sa ops).2 ∧ MRef (run st ops).1 (Spec.run sa ops).1 :=
+  ⟨headsAgree_of_answers _ _ _ (refines_run ops st sa h3 hR ha).1, (refines_run ops st sa h3 hR ha).2⟩
 
 /-- executable version of `HeadsAgree` -/
 def headsAgreeB : List Op → List Ans → List Ans → Bool
